@@ -175,7 +175,17 @@ func ElideError(err error) string {
 	case *net.AddrError:
 		return t.Err + " " + elidedAddr
 	case *net.DNSError:
-		return "lookup " + elidedAddr + " on " + elidedAddr + ": " + t.Err
+		// t.Err is free-form text that the resolver fills in, and it can
+		// include the addresses of the failed exchange with the DNS server,
+		// so only report the kind of failure.
+		cause := "lookup failed"
+		switch {
+		case t.IsNotFound:
+			cause = "no such host"
+		case t.IsTimeout:
+			cause = "i/o timeout"
+		}
+		return "lookup " + elidedAddr + " on " + elidedAddr + ": " + cause
 	case *net.InvalidAddrError:
 		return "invalid address error"
 	case *net.UnknownNetworkError:
